@@ -336,11 +336,21 @@ func c04ChurnGen(rng *rand.Rand, m *model.Model, keys []string) []string {
 	case x < 32:
 		return []string{"HMGET", k, fld(), fld(), fld()}
 	case x < 33:
+		if rng.Intn(2) == 0 {
+			return []string{"HRANDFIELD", k, countAround(rng, modelCard(m, k))}
+		}
 		return []string{"HINCRBY", k, fld(), strconv.Itoa(rng.Intn(9) - 4)}
 	case x < 34:
 		return []string{"HSETNX", k, fld(), "nx"}
 	case x < 35:
-		return []string{"HRANDFIELD", k, strconv.Itoa(rng.Intn(12) - 4)}
+		a := []string{"HRANDFIELD", k, strconv.Itoa(rng.Intn(12) - 4)}
+		if rng.Intn(3) > 0 {
+			a[2] = countAround(rng, modelCard(m, k))
+		}
+		if rng.Intn(3) == 0 {
+			a = append(a, "WITHVALUES")
+		}
+		return a
 	case x < 36:
 		return []string{"COPY", k, "cd", "REPLACE"}
 	case x < 37:
